@@ -38,3 +38,19 @@ for v2 in (0, 1):
                           defines=['MEL=0', 'PER=0', 'V2=%d' % v2], unwind=130,
                           desc='bank loader, header-only image (0+0 banks), symbolic version code and flags: an accepted image has a version the writer reproduces',
                           bounds='bank counts 0/0; version code, LFO/chip flags symbolic'))
+
+WALK = dict(separate_tus=['src/wopn/wopn_file.c'], native=False,
+            remove_bodies=['__CPROVER_file_local_wopn_file_c_WOPN_parseInstrument', '__CPROVER_file_local_wopn_file_c_WOPN_writeInstrument'],
+            stubs=['WOPN_parseInstrument / WOPN_writeInstrument are cut out of the separately compiled wopn_file.c and replaced by obligation stubs that assert the exact offset and that the block lies inside the given length (the leaves themselves: C15.ins.*)'])
+for (m, p, v, tiers) in ((1, 1, 2, ('quick', 'thorough')), (1, 1, 1, ('quick', 'thorough')), (9, 1, 2, ('quick', 'thorough')), (1, 9, 1, ('thorough',)),
+                         (2, 2, 2, ('thorough',)), (0, 0, 0, ('quick', 'thorough')), (9, 9, 2, ('thorough',))):
+    tag = 'm%dp%d.v%d' % (m, p, v)
+    d = ['MEL=%d' % m, 'PER=%d' % p, 'SAVE_VER=%d' % v]
+    OBLIGATIONS.append(Ob('C15.save.guard.' + tag, 'C15', 'c/wopn_walk.c', entry='harness_save_guard', defines=d, unwind=130, tiers=tiers,
+                          timeout={'quick': 600, 'thorough': 2400},
+                          desc='WOPN_SaveBankToMem on a forged %d+%d-bank value, every destination length below the needed size: refused, every written block inside the length, no byte at/after length written' % (m, p),
+                          bounds='bank counts %d/%d, version %d, all lengths < needed' % (m, p, v), **WALK))
+    OBLIGATIONS.append(Ob('C15.save.exact.' + tag, 'C15', 'c/wopn_walk.c', entry='harness_save_exact', defines=d, unwind=130, tiers=tiers,
+                          timeout={'quick': 600, 'thorough': 2400},
+                          desc='WOPN_SaveBankToMem into exactly the calculated size succeeds, instrument k is written at header+k*size',
+                          bounds='bank counts %d/%d, version %d' % (m, p, v), **WALK))
